@@ -935,8 +935,9 @@ func IsPublicType(typ ddptypes.Type, table ast.SymbolTable) bool {
 		if structType, ok := typ.(*ddptypes.StructType); ok {
 			lookupName = structType.Name
 		}
-		decl, _, _ := table.LookupDecl(lookupName)
-		return decl.Public()
+		decl, exists, _ := table.LookupDecl(lookupName)
+		// the element type of an imported alias need not be imported itself: it was public where the alias was declared
+		return !exists || decl.Public()
 	}
 
 	return true // non-struct types are predeclared and always "public"
